@@ -57,6 +57,9 @@ type c19Scalars struct {
 	U64  uint64  `xsel:"count(*)"`
 	F32  float32 `xsel:"count(*) div 4"`
 	F64  float64 `xsel:"number(@n)"`
+	Big  uint64  `xsel:"10000000000000000000 + count(*)"`
+	BigU uint    `xsel:"18446744073709549568"`
+	Neg  int64   `xsel:"-9223372036854775808 + count(*)"`
 	Keep string
 	Also []int
 }
@@ -149,7 +152,7 @@ func fitsInt(f float64, kind reflect.Kind) bool {
 	case reflect.Int32:
 		return f >= -(1<<31) && f <= 1<<31-1
 	case reflect.Int, reflect.Int64:
-		return f >= -(1<<62) && f <= 1<<62
+		return f >= -(1<<63) && f < 1<<63
 	case reflect.Uint8:
 		return f >= 0 && f <= 255
 	case reflect.Uint16:
@@ -157,7 +160,7 @@ func fitsInt(f float64, kind reflect.Kind) bool {
 	case reflect.Uint32:
 		return f >= 0 && f <= 1<<32-1
 	case reflect.Uint, reflect.Uint64:
-		return f >= 0 && f <= 1<<62
+		return f >= 0 && f < 1<<64
 	}
 	return true
 }
@@ -369,7 +372,7 @@ func safeUnmarshal(res xsel.Result, target any, opts ...xsel.ContextApply) (err 
 var c19TagPool = map[reflect.Kind][]string{
 	reflect.String:  {"@id", ".", "name()", "string(*[1])", "*", "text()", "..", "'lit'", "concat(@id,'-',@k)", "no-such", "count(*)", "true()"},
 	reflect.Bool:    {"*", "@id", "boolean(@k)", "count(*) > 1", "false()", "'x'", "no-such", ". = 'abc'"},
-	reflect.Int:     {"count(*)", "count(@*)", "string-length(.)", "count(//node())", "1 + 2", "position()", "last()", "count(ancestor::*)"},
+	reflect.Int:     {"count(*)", "count(@*)", "string-length(.)", "count(//node())", "1 + 2", "position()", "last()", "count(ancestor::*)", "10000000000000000000", "18446744073709549568", "9223372036854774784", "-9223372036854775808", "4294967296 * 3", "-(count(*)) - 200", "2.75 + count(*)"},
 	reflect.Float64: {"count(*) div 3", "number(@n)", "1.5", "count(*)", "sum(*[number(.) = number(.)])", "0 div 0", "-1 div 0"},
 	reflect.Slice:   {"*", "@*", "node()", "text()", "ancestor::*", "//*", "no-such", "*|@*", "following-sibling::*", "*[2]"},
 	reflect.Struct:  {".", "*[1]", "..", "self::*", "(//*)[1]", "ancestor-or-self::*[last()]"},
